@@ -93,6 +93,9 @@ def owners(ctx) -> None:
                 n += 1
                 ctx.check(fn.ref in allowed, 'R-OWNER', fn, f'`{attr}` is written only by its owner ({sorted(a.split(":")[1] for a in allowed)})', w)
         ctx.floor(f'R-OWNER.{attr}', n, 2 if attr == '_PORTS' else 1)
+    dl = prog.func(f'{PORT}:Subscription.__del__')
+    body = [core.src(x) for x in dl.body if not (isinstance(x, ast.Expr) and isinstance(x.value, ast.Constant))]
+    ctx.check(body == ['self._PORTS.get(self.node, {}).discard(self.port)'], 'R-OWNER', dl, f'a dying subscription releases exactly its own port of its own node - the other ports of the node stay registered ({body})', dl.node, key='__del__:own-port-only')
     pub = prog.func(f'{PORT}:Publishable.publish')
     for w in _stores(pub.node, '_PORTS'):
         in_handler = any(isinstance(a, ast.ExceptHandler) for a in core.ancestors(w))
